@@ -396,7 +396,7 @@ class Interp:
                     self._block(s.body, env)
                 except Raised as r:
                     for h in s.handlers:
-                        if self._handler_matches(h, r.exc):
+                        if self._handler_matches(h, r.exc, env):
                             if h.name:
                                 env.set(h.name, r)
                             env.set("__current_exception__", r)
@@ -455,12 +455,21 @@ class Interp:
         else:
             raise AnalysisError(f"statement not modelled by the abstract evaluator: {type(s).__name__} at line {s.lineno}")
 
-    def _handler_matches(self, h: ast.ExceptHandler, exc: str) -> bool:
+    def _handler_matches(self, h: ast.ExceptHandler, exc: str, env: "Env | None" = None) -> bool:
         if h.type is None:
             return True
         from sa.cfg import _exc_names
 
         names = _exc_names(h, list(h.type.elts) if isinstance(h.type, ast.Tuple) else [h.type])  # (module-level tuples of classes are expanded)
+        if env is not None and isinstance(h.type, ast.Name) and names == [h.type.id]:
+            # a name that is not a class written in place: what it evaluates to decides (a tuple computed at module level, a local alias)
+            try:
+                v = self.eval(h.type, env)
+            except (Raised, AnalysisError):
+                v = None
+            vals = list(v) if isinstance(v, (tuple, list)) else [v]
+            if v is not None and all(isinstance(x, (ExtRef, ClassRef)) for x in vals):
+                names = [x.name.split(".")[-1] if isinstance(x, ExtRef) else x.cls.name for x in vals]
         mro = self.exc_mro(exc)
         return any((n or "").split(".")[-1] in mro for n in names)
 
@@ -1404,6 +1413,11 @@ class Interp:
     def _isinstance(self, v: Any, spec: Any) -> bool:
         specs = list(spec) if isinstance(spec, tuple) else [spec]
         for s in specs:
+            if isinstance(v, Raised) and isinstance(s, (ClassRef, ExtRef)):
+                # a caught exception tested against an exception class: by the class hierarchy of exceptions
+                if (s.cls.name if isinstance(s, ClassRef) else s.name.split(".")[-1]) in self.exc_mro(v.exc):
+                    return True
+                continue
             if isinstance(s, ClassRef):
                 if isinstance(v, Obj) and v.cls is not None and s.cls in self.prog.mro(v.cls):
                     return True
